@@ -64,6 +64,8 @@ _WORKER = {}
 
 def _worker_init(mkexec_mod, mkexec_name, docs, cfg):
     import importlib
+    from . import arena
+    arena.install()
     mod = importlib.import_module(mkexec_mod)
     _WORKER['mk'] = getattr(mod, mkexec_name)
     _WORKER['docs'] = docs
@@ -75,11 +77,16 @@ def _worker_run(task):
     from .core import Prefix
     from .values import Unsupported
     job, dec, qlog, max_paths, deadline = task
+    _tt = time.time()
     try:
         x, driver = _WORKER['mk'](_WORKER['docs'], job, _WORKER['cfg'])
-        results = x.explore(driver, max_paths=max_paths, deadline=deadline, start=[Prefix(dec, qlog)])
+        # a task is a time slice (<= 8 s) so that no worker is tied up while earlier jobs still have work
+        results = x.explore(driver, max_paths=max_paths, deadline=min(deadline, time.time() + 8), start=[Prefix(dec, qlog)])
         left = [(p.dec, p.qlog) for p in x.leftover]
         enc = {'%s:%s:%s' % k: v for k, v in x.encoded.items()}
+        x.stats['task_s'] = time.time() - _tt
+        x.stats['tasks'] = 1
+        x.stats['prefix_len'] = len(dec)
         return dict(job=job, results=results, stats=x.stats, leftover=left, encoded=enc,
                     incomplete=x.incomplete_reasons, error=None)
     except Unsupported as u:
@@ -92,26 +99,50 @@ def _worker_run(task):
 
 def explore_jobs(mk_mod, mk_name, docs, jobs, cfg, workers, wall_budget_s, chunk_paths=24):
     """Explore every job (skeleton) completely or until the wall budget ends.
-    A job is split over workers by handing out unexplored prefixes."""
+    A job is split over workers by handing out unexplored prefixes. Jobs are served in the order given:
+    a worker always takes a prefix of the earliest unfinished job, so cheap jobs listed first are completed
+    before the budget is spent on expensive ones."""
+    import heapq
     t0 = time.time()
     deadline = t0 + wall_budget_s
     agg = dict(results=[], stats={}, encoded={}, incomplete={}, errors=[], unfinished_jobs={}, jobs_done=0)
-    from collections import deque
-    pending = deque((j, [], []) for j in jobs)      # round-robin over jobs: leftovers go to the back
+    order = {json.dumps(j, sort_keys=True): i for i, j in enumerate(jobs)}
+    seq = [0]
+
+    class Pending:
+        def __init__(self):
+            self.h = []
+
+        def append(self, item):
+            j, dec, ql = item
+            seq[0] += 1
+            heapq.heappush(self.h, (order.get(json.dumps(j, sort_keys=True), 10 ** 6), seq[0], item))
+
+        def pop(self):
+            return heapq.heappop(self.h)[2]
+
+        def __bool__(self):
+            return bool(self.h)
+
+        def __iter__(self):
+            return iter(it for _, _, it in self.h)
+    pending = Pending()
+    for j in jobs:
+        pending.append((j, [], []))
     if workers <= 1:
         _worker_init(mk_mod, mk_name, docs, cfg)
         while pending:
             if time.time() > deadline:
                 break
-            j, dec, ql = pending.popleft()
+            j, dec, ql = pending.pop()
             _merge(agg, _worker_run((j, dec, ql, chunk_paths, deadline)), pending)
     else:
         ctx = mp.get_context('fork')
         with ctx.Pool(workers, initializer=_worker_init, initargs=(mk_mod, mk_name, docs, cfg)) as pool:
             inflight = []
             while pending or inflight:
-                while pending and len(inflight) < workers * 2 and time.time() < deadline:
-                    j, dec, ql = pending.popleft()
+                while pending and len(inflight) < workers + 2 and time.time() < deadline:
+                    j, dec, ql = pending.pop()
                     inflight.append(pool.apply_async(_worker_run, ((j, dec, ql, chunk_paths, deadline),)))
                 if not inflight:
                     break
@@ -132,6 +163,9 @@ def explore_jobs(mk_mod, mk_name, docs, jobs, cfg, workers, wall_budget_s, chunk
         k = json.dumps(j, sort_keys=True)
         agg['unfinished_jobs'][k] = agg['unfinished_jobs'].get(k, 0) + 1
     agg['wall_s'] = time.time() - t0
+    if os.environ.get('VERIF_DEBUG'):
+        print('[explore-cfg] %s %s workers=%s budget=%s' % (json.dumps(cfg, sort_keys=True, default=str)[:300], hashlib.sha256(json.dumps(jobs, sort_keys=True).encode()).hexdigest()[:8], workers, wall_budget_s), file=sys.stderr)
+        print('[explore] %d jobs, %d results, %.0fs, stats %s' % (len(jobs), len(agg['results']), agg['wall_s'], {k: (round(v, 1) if isinstance(v, float) else v) for k, v in agg['stats'].items()}), file=sys.stderr)
     return agg
 
 
